@@ -31,10 +31,16 @@ for sh in sorted(glob.glob(os.path.join(V, "sensitivity", "mutants", "*.sh"))):
         if b.returncode != 0:
             entry["status"] = "does not compile: " + b.stdout[-300:]
             continue
-        bl = subprocess.run(["python3", os.path.join(V, "bin", "baseline.py")], env=dict(os.environ, VERIF_REPO=wt), stdout=subprocess.PIPE, stderr=subprocess.STDOUT, text=True)
-        entry["existing_tests_pass"] = bl.returncode == 0
-        if bl.returncode != 0:
-            entry["existing_tests_failing"] = bl.stdout.splitlines()[:6]
+        if os.environ.get("SENS_SKIP_BASELINE") and name in results and "existing_tests_pass" in results[name]:
+            # (re-run of the checks only: the baseline verdict of the last full run is kept)
+            entry["existing_tests_pass"] = results[name]["existing_tests_pass"]
+            if "existing_tests_failing" in results[name]:
+                entry["existing_tests_failing"] = results[name]["existing_tests_failing"]
+        else:
+            bl = subprocess.run(["python3", os.path.join(V, "bin", "baseline.py")], env=dict(os.environ, VERIF_REPO=wt), stdout=subprocess.PIPE, stderr=subprocess.STDOUT, text=True)
+            entry["existing_tests_pass"] = bl.returncode == 0
+            if bl.returncode != 0:
+                entry["existing_tests_failing"] = bl.stdout.splitlines()[:6]
         for cid in ids:
             t0 = time.time()
             c = subprocess.run(["python3", os.path.join(V, "bin", "check.py"), cid], cwd=V, env=dict(os.environ, VERIF_REPO=wt), stdout=subprocess.PIPE, stderr=subprocess.STDOUT, text=True)
